@@ -116,6 +116,7 @@ fn main() {
             let src = match source_feasible(m, &env) { Some(x) => x, None => { rep.count("points.undefined"); continue; } };
             rep.count("points.evaluated");
             let best = side.best_extension(&env, dirsign);
+            if matches!(best, Some(v) if v.is_nan()) { rep.count("points.oracle_inconclusive"); continue; }
             let lin = best.is_some();
             if src { feasible_pts += 1; }
             if src != lin {
